@@ -39,7 +39,7 @@ func runC07(w *World) {
 		}
 	}
 	dominant := L > R || (L == R && localAS > remoteAS)
-	clause := Pick(w, "clause", "A-seq", "A-conc", "A-race", "A-seq", "B1", "B2", "B3", "B4", "A-conc", "A-race", "A-down", "A-down")
+	clause := Pick(w, "clause", "A-seq", "A-conc", "A-race", "A-seq", "B1", "B2", "B3", "B4", "A-conc", "A-race", "A-down", "A-down", "A-late", "A-late")
 	s := NewStd1(w, Std1Opts{Dir: DirOut, LocalID: localID, RemoteID: U32ToIP(R), LocalAS: localAS, RemoteAS: remoteAS,
 		LocalHold: 90, RemoteHold: 90, IdleHold: 2 * time.Second, Retry: 30 * time.Second,
 		Configure: func(p *PeerH) { p.Plug.Oracle = true }})
@@ -90,10 +90,57 @@ func runC07(w *World) {
 	}
 
 	switch clause {
-	case "A-seq", "A-conc", "A-race", "A-down":
+	case "A-seq", "A-conc", "A-race", "A-down", "A-late":
 		// open both connections, in a drawn order
 		var O, I *Conn
-		if w.Draw(2, "openorder") == 0 {
+		lateSecond := ""
+		if clause == "A-late" {
+			// the second connection only comes into being when the first one is
+			// already in OpenConfirm (the common order in practice)
+			d := p.Site.WaitDial(time.Minute)
+			if d == nil {
+				bail("no-dial")
+				return
+			}
+			if w.Draw(2, "latewhich") == 0 {
+				O = d.Accept()
+				if !open(O) {
+					bail("no-open-on-O")
+					return
+				}
+				sendOpen(O)
+				if f := O.WaitFrame(time.Minute); f == nil || f.Type != MsgKeepalive {
+					bail("first-open-refused")
+					return
+				}
+				w.Quiesce()
+				I = e.OpenConn(p, DirIn, time.Minute)
+				lateSecond = "inbound"
+				if !open(I) {
+					w.Violate("C07/collision/second-connection-not-admitted/inbound", "the outbound connection was in OpenConfirm (neither Established) when the remote's connection arrived; it must be served so that the collision can be resolved, but it saw %s closed=%v", descFrames(I.AllFrames()), I.LocalClosed())
+					return
+				}
+			} else {
+				I = e.OpenConn(p, DirIn, time.Minute)
+				if !open(I) {
+					bail("no-open-on-I")
+					return
+				}
+				sendOpen(I)
+				if f := I.WaitFrame(time.Minute); f == nil || f.Type != MsgKeepalive {
+					bail("first-open-refused")
+					return
+				}
+				w.Quiesce()
+				O = d.Accept()
+				lateSecond = "outbound"
+				if O == nil || !open(O) {
+					w.Violate("C07/collision/second-connection-not-admitted/outbound", "the inbound connection was in OpenConfirm (neither Established) when corebgp's own connect completed; corebgp must send its OPEN on it so that the collision can be resolved")
+					return
+				}
+			}
+			w.Quiesce()
+		} else if w.Draw(2, "openorder") == 0 {
 			d := p.Site.WaitDial(time.Minute)
 			if d == nil {
 				bail("no-dial")
@@ -129,7 +176,7 @@ func runC07(w *World) {
 		w.Quiesce()
 		first, second := O, I
 		secondName := "inbound-second"
-		if w.Draw(2, "first") == 1 {
+		if (lateSecond == "" && w.Draw(2, "first") == 1) || lateSecond == "outbound" {
 			first, second = I, O
 			secondName = "outbound-second"
 		}
@@ -149,6 +196,9 @@ func runC07(w *World) {
 		cell := domName + "," + secondName
 		sample("cell", cell)
 		switch clause {
+		case "A-late":
+			sendOpen(second)
+			w.Quiesce()
 		case "A-seq":
 			sendOpen(first)
 			if f := first.WaitFrame(time.Minute); f == nil || f.Type != MsgKeepalive {
